@@ -1,9 +1,16 @@
 mod util;
 mod p_c13;
+mod p_c10;
+mod p_c05;
+mod p_c27;
+mod p_c04;
+mod p_c06;
 use util::Opts;
 
 /// Finite tables read out of the compiled code (DESIGN.md 2.1).
-fn reflect_all(_out: &std::path::Path) {
+fn reflect_all(out: &std::path::Path) {
+    p_c10::reflect(out);
+    p_c05::reflect(out);
 }
 
 fn main() {
@@ -23,6 +30,11 @@ fn main() {
     util::silence_panics();
     match a[1].as_str() {
         "c13" => p_c13::run(&o),
+        "c10" => p_c10::run(&o),
+        "c05" => p_c05::run(&o),
+        "c27" => p_c27::run(&o),
+        "c04" => p_c04::run(&o),
+        "c06" => p_c06::run(&o),
         // `vh reflect --out DIR`: every reflector writes its coq/Gen/*.v tables into DIR
         "reflect" => { std::fs::create_dir_all(&o.out).unwrap(); reflect_all(&o.out); }
         x => { eprintln!("unknown property driver {}", x); std::process::exit(2); }
